@@ -161,25 +161,55 @@ def generate(cfg="A", builddir=None, outpath=None):
     parser = strip_comments(read(os.path.join(SRC, "parser.c")))
     unitsc = strip_comments(read(os.path.join(SRC, "units.c")))
 
-    def divs(b):
-        sc = switch_consts(b)
-        d10 = sc.get(10, sc.get("default"))
-        r = (sc.get(2, d10), sc.get(8, d10), d10, sc.get(16, d10))
-        if any(x is None for x in r): raise Fail("divisor constants of the base switch not found")
-        return r
-    def digits(b):
-        m = re.search(r'digits\s*\[\s*\]\s*=\s*"([^"]*)"', b)
-        if not m: raise Fail("digit alphabet not found")
-        return m.group(1)
+    # constants inside the two integer formatters: read from the source text where it has the shape the patterns know
+    # (`switch (base)` with `x = CONST;` sections, `digits[] = "..."` inside the function), otherwise from clang's AST
+    # (translate/c2lean_intfmt.py: constants assigned under `case k:` or `base == k`, the indexed constant array at function or
+    # file scope).  A function where neither works fails ITS OWN sections only (zero table / empty alphabet below).
+    _ast_tables = {}
+    def ast_tables(fn):
+        if "r" not in _ast_tables:
+            try:
+                import c2lean_intfmt
+                _ast_tables["r"] = c2lean_intfmt.extract_tables()
+            except BaseException as e:     # also SystemExit: nothing in here may abort generate()
+                _ast_tables["r"] = {}
+                _ast_tables["why"] = "%s: %s" % (type(e).__name__, e)
+        return _ast_tables["r"].get(fn, {}), _ast_tables.get("why", "not recognised in the AST either")
+    def divs(fn):
+        try:
+            sc = switch_consts(fbody(utils, fn))
+            d10 = sc.get(10, sc.get("default"))
+            r = (sc.get(2, d10), sc.get(8, d10), d10, sc.get(16, d10))
+            if not any(x is None for x in r):
+                return r
+            why = "divisor constants of the base switch not found"
+        except (SystemExit, Fail) as e:
+            why = str(e)
+        t, why2 = ast_tables(fn)
+        if t.get("div"):
+            return t["div"]
+        raise Fail("%s; %s" % (why, why2))
+    def digits(fn):
+        try:
+            m = re.search(r'digits\s*\[\s*\]\s*=\s*"([^"]*)"', fbody(utils, fn))
+            if m:
+                return m.group(1)
+            why = "digit alphabet not found"
+        except Fail as e:
+            why = str(e)
+        t, why2 = ast_tables(fn)
+        if t.get("digits") is not None:
+            return t["digits"]
+        raise Fail("%s; %s" % (why, why2))
     def fbody(src, fn):
         try:
             return func_body(src, fn)
         except SystemExit as e:
             raise Fail(str(e))
-    d32 = section("intfmt32-divisors", lambda: divs(fbody(utils, "UInt32ToStrBaseSign")), (0, 0, 0, 0))
-    d64 = section("intfmt64-divisors", lambda: divs(fbody(utils, "UInt64ToStrBaseSign")), (0, 0, 0, 0))
-    dig32 = section("intfmt32-digits", lambda: digits(fbody(utils, "UInt32ToStrBaseSign")), "")
-    dig64 = section("intfmt64-digits", lambda: digits(fbody(utils, "UInt64ToStrBaseSign")), "")
+    d32 = section("intfmt32-divisors", lambda: divs("UInt32ToStrBaseSign"), (0, 0, 0, 0))
+    d64 = section("intfmt64-divisors", lambda: divs("UInt64ToStrBaseSign"), (0, 0, 0, 0))
+    dig32 = section("intfmt32-digits", lambda: digits("UInt32ToStrBaseSign"), "")
+    dig64 = section("intfmt64-digits", lambda: digits("UInt64ToStrBaseSign"), "")
 
     def base_prefixes():
         r = [(int(a), b) for a, b in re.findall(r'case\s+(\d+)\s*:\s*return\s*"([^"]*)"', fbody(parser, "getBasePrefix"))]
@@ -353,7 +383,9 @@ def generate(cfg="A", builddir=None, outpath=None):
         import c2lean_intfmt
         intfmt_c = c2lean_intfmt.generate(os.path.join(os.path.dirname(outpath), "IntFmtC.lean"))
         if intfmt_c["failed"]:
-            failed["intfmt_c"] = "; ".join("%s: %s" % kv for kv in sorted(intfmt_c["failed"].items()))[:400]
+            # root causes first (a wrapper that only fails because its callee was refused says nothing new)
+            failed["intfmt_c"] = "; ".join("%s: %s" % kv for kv in sorted(intfmt_c["failed"].items(),
+                                           key=lambda kv: ("which is not a function translated before" in kv[1] and "ToStrBaseSign'" in kv[1], kv[0])))[:400]
     except Exception as e:
         failed["intfmt_c"] = ("c2lean_intfmt: %s: %s" % (type(e).__name__, e))[:400]
         try:
